@@ -22,7 +22,9 @@ type c30Res struct {
 }
 
 var c30Keys = []string{"1", "01", "1.0", "1e3", "001", "10", "0x1", "-1", "+1", " 1", "k", "K", "key with space", "k'q", "k\"q", "ключ", "日本", "a/b", "%", "null", "true", "1.50", "1.5", "00", "0", "9007199254740993", "9007199254740992", "long-key-aaaaaaaaaaaaaaaaaaaaaaaaaaaaaaaaaaaaaaaaaaaaaaaaaaaaaaaaaaaaaaaaaaaaaaaaaaaaaaaaaaaa"}
-var c30NS = []string{"preview_command", "man_summary", "hint_summary"}
+// three built-in namespaces and three of the dynamic `preview_event:<event name>` kind that differ
+// only in punctuation
+var c30NS = []string{"preview_command", "man_summary", "hint_summary", "preview_event:git-log", "preview_event:git_log", "preview_event_git.log"}
 
 type c30Entry struct {
 	val  string // JSON of the latest value
@@ -34,7 +36,7 @@ func init() {
 	register(&Property{
 		ID:    "C30",
 		Level: "exploration",
-		Rule: "sequential histories of 10-40 operations (Write with TTL class dead = one hour ago, live = two hours ahead, short = one second ahead; Read; Trim; Clear; a 3 s sleep in a quarter of the histories) over 3 namespaces and keys that include numeric look-alikes (1, 01, 1.0, 1e3, 0x1, 00, 2^53+1 ...), case variants, quotes, spaces, non-ASCII and long keys, values of several JSON types carrying a unique write id, on a private database file per worker; " +
+		Rule: "sequential histories of 10-40 operations (Write with TTL class dead = one hour ago, live = two hours ahead, short = one second ahead; Read; Trim; Clear; a 3 s sleep in a quarter of the histories) over 6 namespaces (three built-in ones and three `preview_event:<name>`-style ones that differ only in punctuation) and keys that include numeric look-alikes (1, 01, 1.0, 1e3, 0x1, 00, 2^53+1 ...), case variants, quotes, spaces, non-ASCII and long keys, values of several JSON types carrying a unique write id, on a private database file per worker; " +
 			"oracle: model map (namespace,key) -> (latest value, TTL class): live => that value; dead => nothing; short => that value or nothing inside the window and nothing after the sleep; never the value of another key or namespace; nothing after Clear; non-trivial = a read of a key written twice or having a look-alike sibling key / the same key in another namespace; distinct by history",
 		Assumptions: []string{"TTL classes are chosen so that the outcome does not depend on the exact clock (except inside the one second window, where both outcomes are accepted)", "the cache is process-global: one history at a time per worker, each starting with Clear"},
 		Technique:   "runtime monitoring: API history against a reference map with unique values (foreign or stale values are identifiable)",
